@@ -307,7 +307,7 @@ func phaseSweep(c *Ctx, each func(s *Sys, pols []int)) {
 		{polV2 | polV3 | polSendWS | polRequire, polV2 | polWSStart},
 	}
 	texts := []string{"an ordinary line", "?OTRv3? the PIN is 7731", "?OTR? and more", "?OTR Error: not really", "?OTR:AAMDnotbase64."}
-	nAct := 7
+	nAct := 8
 	k := 0
 	for ph := 0; ph < nPhases; ph++ {
 		for act := 0; act < nAct; act++ {
@@ -339,6 +339,13 @@ func phaseSweep(c *Ctx, each func(s *Sys, pols []int)) {
 					s.End(1)
 				case 6:
 					s.End(2)
+				case 7:
+					// the peer disconnects the way other implementations do: a bare Disconnected TLV, no padding after it,
+					// built by the independent reference sender from the peer's secrets
+					if !s.ps[2].c.IsEncrypted() || !s.Forge(2, "CSendTLVs [TDisconnected]", 1, nil, []byte{0, 1, 0, 0}) {
+						continue
+					}
+					s.ps[2].pending = len(s.ps[2].outs) - 1
 				}
 				c.Count("phase:" + phaseNames[ph])
 				c.Count(fmt.Sprintf("phase-action:%d", act))
